@@ -14,6 +14,8 @@ Engine case (JSON):
   unrelated    None | join time index           an unrelated daemon joining
   delays       list of indexes into DELAYS (cycled), start_durations list of indexes into DURATIONS (cycled per launcher start)
   fault        None | {"kind": "start-fails", "host": k-th distinct (ip,port)} | {"kind": "daemon-leaves", "ip": ip index, "at": time index}
+               | {"kind": "daemon-leaves-after-stop", "ip": ip index, "after": index into LEAVE_AFTER_STOP} (not a failure: the host has
+               confirmed that its nodes are stopped when its daemon goes away)
 """
 import asyncio
 
@@ -34,6 +36,7 @@ PORTS = [9200, 9201]
 DELAYS = [0.0, 0.0, 1 / 1024, 0.25, 2.0, 7.0]
 JOIN_TIMES = [0.0, 0.5, 3.0, 9.0]
 LEAVE_TIMES = [0.25, 1.0, 4.0, 9.5, 12.0]
+LEAVE_AFTER_STOP = [0.0, 1 / 1024, 0.25, 2.0]
 DURATIONS = [0.0, 0.5, 3.0]
 BENCHMARK_DURATION = 40.0
 
@@ -281,6 +284,27 @@ def run_engine(case):
                         rt.host_leaves(victim)
 
                 loop.call_at(LEAVE_TIMES[fault["at"] % len(LEAVE_TIMES)], actors.ActorEvent(leave))
+            if fault and fault["kind"] == "daemon-leaves-after-stop" and remote_hosts:
+                # the daemon of a remote host is shut down (or dies) right after its node mechanic has confirmed that its nodes are
+                # stopped, while other hosts may still be busy stopping theirs
+                victim_ip = sorted(remote_hosts)[fault["ip"] % len(remote_hosts)]
+                victim_host = remote_hosts[victim_ip]
+
+                confirmed = set()
+
+                def on_send(tname):
+                    if tname == "NodesStopped" and "left_at" not in fault:
+                        proc = kernel.current_proc.get()
+                        rec = next((a for a in rt.actors.values() if a.proc == proc), None)
+                        if rec is not None and rec.host is victim_host:
+                            confirmed.add(proc)
+                        # (one daemon may run several node mechanics - one per (ip, port) of the target hosts: all of them have confirmed)
+                        mechanics = [a for a in rt.actors.values() if a.alive and a.host is victim_host and isinstance(a.instance, mechanic.NodeMechanicActor)]
+                        if rec is not None and rec.host is victim_host and all(a.proc in confirmed for a in mechanics):
+                            fault["left_at"] = clock.now + LEAVE_AFTER_STOP[fault.get("after", 0) % len(LEAVE_AFTER_STOP)]
+                            loop.call_at(fault["left_at"], actors.ActorEvent(rt.host_leaves, victim_host))
+
+                rt.on_send = on_send
             state["mechanic"] = rt.create_actor(mechanic.MechanicActor, parent=None, requirements={"coordinator": True})
             rt.tell(
                 state["mechanic"],
